@@ -39,11 +39,9 @@ def extract(ctx):
              dict(func=r'bool\s+sameSet\s*\(\s*parent_t\s+x\s*,\s*parent_t\s+y\s*\)\s*\{', name='sameSet', k=0, args='&x, &y', vars=['x', 'y']),
              dict(func=r'void\s+unionNodes\s*\(\s*parent_t\s+x\s*,\s*parent_t\s+y\s*\)\s*\{', name='unionNodes', k=0, args='&x, &y', vars=['x', 'y'])]
     for h in hooks:
-        mod = rw.loop_modified(docs, raw, h['name'], h['k'])
-        log['loop %s.%d modified set (clang)' % (h['name'], h['k'])] = mod
-        missing = [x for x in mod if x not in h['vars']]
-        if missing:
-            raise ExtractError('loop %s.%d modifies %s which its hook does not havoc' % (h['name'], h['k'], missing))
+        # hook arguments follow the clang-computed modified set in declaration order (a renamed local does not break the hook)
+        h['args'], order = rw.hook_args_by_order(docs, raw, h['name'], h['k'], ['&'] * len(h['vars']))
+        log['loop %s.%d modified set (clang, declaration order)' % (h['name'], h['k'])] = order
     text = rw.r9_hooks(text, hooks, log)
     # modular verification: inside sameSet/unionNodes the calls of findNode go through the extern "C" entry that carries findNode's contract
     def redirect(t, fn_regex):
